@@ -7,6 +7,12 @@ SPEC = {
         # pinned tree: counterexample decided by the kernel, partial statement (one worker)
         "AM.Workers.two_worker_reorder", "AM.Workers.final_is_last_submitted_false_for_pinned_tree",
         "AM.Workers.final_is_last_submitted_partial",
+        # dispatcher (re)start: the snapshot of SlurpAndSubscribe is routed before the workers start (code as it is): full statement;
+        # snapshot routed concurrently with the workers: counterexample decided by the kernel
+        "AM.Workers.Load.loadAll_spec", "AM.Workers.Load.seq_decompose", "AM.Workers.Load.final_is_last_submitted",
+        "AM.Workers.Load.restart_holds_latest", "AM.Workers.Load.no_worker_step_while_loading",
+        "AM.Workers.Load.initial_load_reorder", "AM.Workers.Load.initial_load_reorder_not_sequential",
+        "AM.Workers.Load.final_is_last_submitted_false_for_concurrent_load",
     ],
     "engines": [
         {"name": "workers", "pkg": "./workers", "search_cases": 10000},
@@ -16,7 +22,13 @@ SPEC = {
             "slog.Handler, so receive/apply steps are serialised in a generated order: 2-6 updates (fire / refresh / resolve / "
             "re-fire) of 1-3 alerts, 2/3/4/8 workers, parked workers released in random order; group content observed after "
             "every release and at the end; plus ungated stress runs of 2000 back-to-back fire->resolve pairs (2 quick, 20 "
-            "thorough); a case is non-trivial when two updates were in flight at once or the final check ran",
+            "thorough); a case is non-trivial when two updates were in flight at once or the final check ran; "
+            "dispatcher (re)start (half as many cases again, header load=1): 1-4 updates are put into the provider before any dispatcher "
+            "exists, then a dispatcher is started (and in 1 of 3 cases restarted later on the same provider): the initial load "
+            "(Run routing the SlurpAndSubscribe snapshot) parks at the same log line at each snapshot alert (^alert:ver), while 1-4 newer "
+            "updates of already-loaded, being-loaded, not-yet-loaded and new alerts are published; whatever is parked (the load, "
+            "and any worker) is released in random order; Groups() is 'loading' until the load is done; plus ungated lstress runs: 2000 "
+            "alerts in the provider, dispatcher started while all 2000 resolve",
     "assumptions": [
         "channel receive and store.Alerts.Set are atomic steps; the model has one group per alert (all groups of an alert get "
         "the same inserts inside one worker step)",
@@ -24,5 +36,9 @@ SPEC = {
         "holds for every owner function",
         "worker queues are unbounded in the model (64 in fixes/F3.diff: a full queue only delays the distributor)",
         "the model + full theorem describe the tree with fixes/F3.diff applied; the pinned tree is AM.Workers.Legacy",
+        "initial load: SlurpAndSubscribe takes the snapshot and registers the subscription in one critical section of the provider "
+        "(so every snapshot version is older than every subscribed version of the same alert): read off provider/mem, not checked here; "
+        "the snapshot's order is a Go map iteration order: the model takes it from the trace (any order is a schedule)",
+        "snapshot items are recognised by content (the versions the provider held when the dispatcher was started), not by goroutine",
     ],
 }
